@@ -19,10 +19,10 @@ EXTENDS Integers, Sequences, FiniteSets, TLC, Json, IOUtils
 
 Trace == ndJsonDeserialize(IOEnv.TRACE_FILE)
 
-VARIABLES l, scn, hooks, pred, reqi, tx, acq, step, lastw, pendA, open, cancelled, cmds, laterStart, lateErr, sawAfter,
+VARIABLES l, scn, hooks, pred, reqi, tx, acq, step, lastw, pendA, failedH, open, cancelled, cmds, laterStart, lateErr, sawAfter,
           inWin, winStarted, outStarted, run, runView, ended, endS, endC, nviol
 
-vars == <<l, scn, hooks, pred, reqi, tx, acq, step, lastw, pendA, open, cancelled, cmds, laterStart, lateErr, sawAfter, inWin, winStarted, outStarted, run, runView, ended, endS, endC, nviol>>
+vars == <<l, scn, hooks, pred, reqi, tx, acq, step, lastw, pendA, failedH, open, cancelled, cmds, laterStart, lateErr, sawAfter, inWin, winStarted, outStarted, run, runView, ended, endS, endC, nviol>>
 
 Line == Trace[l]
 Soft(name, cond, detail) == IF cond THEN 0 ELSE IF PrintT(<<"VIOL", name, scn, l, detail>>) THEN 1 ELSE 1
@@ -37,14 +37,14 @@ NoView == [rn |-> 0, sosor |-> 0]
 
 Init ==
   /\ l = 1 /\ scn = -1 /\ hooks = <<>> /\ pred = <<>> /\ reqi = 0 /\ tx = "" /\ acq = "" /\ step = NoStep /\ lastw = -1000
-  /\ open = {} /\ pendA = {} /\ cancelled = FALSE /\ cmds = 0 /\ laterStart = FALSE /\ lateErr = FALSE /\ sawAfter = FALSE
+  /\ open = {} /\ pendA = {} /\ failedH = {} /\ cancelled = FALSE /\ cmds = 0 /\ laterStart = FALSE /\ lateErr = FALSE /\ sawAfter = FALSE
   /\ inWin = FALSE /\ winStarted = {} /\ outStarted = {}
   /\ run = 0 /\ runView = NoView /\ ended = TRUE /\ endS = 0 /\ endC = 0 /\ nviol = 0
 
 TReset ==
   /\ Line.ev = "Reset"
   /\ scn' = Line.scn /\ hooks' = Line.model.hooks /\ pred' = Line.model.pred /\ reqi' = 0 /\ tx' = "" /\ acq' = ""
-  /\ step' = NoStep /\ lastw' = -1000 /\ open' = {} /\ pendA' = {} /\ cancelled' = FALSE /\ cmds' = 0 /\ laterStart' = FALSE /\ lateErr' = FALSE /\ sawAfter' = FALSE
+  /\ step' = NoStep /\ lastw' = -1000 /\ open' = {} /\ pendA' = {} /\ failedH' = {} /\ cancelled' = FALSE /\ cmds' = 0 /\ laterStart' = FALSE /\ lateErr' = FALSE /\ sawAfter' = FALSE
   /\ inWin' = FALSE /\ winStarted' = {} /\ outStarted' = {}
   /\ run' = 0 /\ runView' = NoView /\ ended' = TRUE /\ endS' = 0 /\ endC' = 0
   /\ UNCHANGED nviol
@@ -52,7 +52,7 @@ TReset ==
 TAcq ==
   /\ Line.ev = "Acq"
   /\ tx' = Line.what /\ acq' = Line.st /\ cancelled' = FALSE /\ cmds' = 0 /\ laterStart' = FALSE /\ lateErr' = FALSE /\ sawAfter' = FALSE
-  /\ UNCHANGED <<scn, hooks, pred, reqi, step, lastw, pendA, open, inWin, winStarted, outStarted, run, runView, ended, endS, endC, nviol>>
+  /\ UNCHANGED <<scn, hooks, pred, reqi, step, lastw, pendA, failedH, open, inWin, winStarted, outStarted, run, runView, ended, endS, endC, nviol>>
 
 \* end of a transition: the C09 clauses about what a failure at each moment means
 TRel ==
@@ -62,7 +62,7 @@ TRel ==
        \* C09: a failure at enter_/after_ keeps the destination state and the remaining moments still run
        + Soft("KeepAfter", lateErr => (Line.st = Dst(tx) /\ sawAfter), <<tx, Line.st, sawAfter>>)
   /\ tx' = "" /\ acq' = "" /\ cancelled' = FALSE /\ cmds' = 0 /\ laterStart' = FALSE /\ lateErr' = FALSE /\ sawAfter' = FALSE
-  /\ UNCHANGED <<scn, hooks, pred, reqi, step, lastw, pendA, open, inWin, winStarted, outStarted, run, runView, ended, endS, endC>>
+  /\ UNCHANGED <<scn, hooks, pred, reqi, step, lastw, pendA, failedH, open, inWin, winStarted, outStarted, run, runView, ended, endS, endC>>
 
 AwaitHere(h, m) == HK(h).am = m /\ (HK(h).tm # m \/ HK(h).aw >= HK(h).tw)
 
@@ -81,6 +81,10 @@ TStep ==
             /\ nviol' = nviol
                  \* C08 Barrier: the moment ends and a call awaited in it has not returned
                  + Soft("Barrier", Line.err \/ \A h \in pendA : ~AwaitHere(h, Line.m), <<Line.m, pendA>>)
+                 \* C09: a critical hook that was started, has failed and is awaited in this moment makes the moment fail
+                 + Soft("CriticalFailureReported",
+                        (\E h \in failedH : HK(h).crit /\ AwaitHere(h, Line.m) /\ Line.tx = tx) => Line.err,
+                        <<Line.m, failedH>>)
                  \* C09: the reported error names critical hooks only
                  + Soft("NonCriticalSilent", \A i \in 1..Len(Line.named) : Line.named[i] \in HookIds => HK(Line.named[i]).crit,
                         <<Line.m, Line.named>>)
@@ -92,7 +96,7 @@ TStep ==
                         <<Line.m, Line.k>>)
   /\ inWin' = IF Line.phase = "end" /\ Line.m = "after_STOP_ACTIVITY" THEN FALSE ELSE inWin
   /\ winStarted' = IF Line.phase = "end" /\ Line.m = "after_STOP_ACTIVITY" THEN {} ELSE winStarted
-  /\ UNCHANGED <<scn, hooks, pred, reqi, tx, acq, pendA, open, cmds, outStarted, run, runView, ended, endS, endC>>
+  /\ UNCHANGED <<scn, hooks, pred, reqi, tx, acq, pendA, failedH, open, cmds, outStarted, run, runView, ended, endS, endC>>
 
 \* a probe hook starts: where, in which order, and what it sees of the run
 THS ==
@@ -116,7 +120,7 @@ THS ==
                                /\ (Line.soeor # 0 /\ Line.eosor # 0 => Line.eosor <= Line.soeor)
                                /\ (Line.eoeor # 0 => Line.soeor # 0 /\ Line.soeor <= Line.eoeor),
                  <<Line.hook, Line.sosor, Line.eosor, Line.soeor, Line.eoeor>>)
-  /\ UNCHANGED <<scn, hooks, pred, reqi, tx, acq, step, lastw, pendA, cancelled, cmds, laterStart, lateErr, sawAfter, inWin, winStarted, outStarted, run, ended, endS, endC>>
+  /\ UNCHANGED <<scn, hooks, pred, reqi, tx, acq, step, lastw, pendA, failedH, cancelled, cmds, laterStart, lateErr, sawAfter, inWin, winStarted, outStarted, run, ended, endS, endC>>
 
 \* handleHooks starts the calls triggered at (moment, weight)   [hook point env.hooks.start]
 THStart ==
@@ -130,28 +134,38 @@ THStart ==
           \* (TeardownEnvironment runs the leave_<state> hooks itself, outside of a transition step)
           + Soft("AtTrigger", (step.m = Line.m \/ tx = "DESTROY") /\ \A c \in C : HK(c).tm = Line.m /\ HK(c).tw = Line.w, <<Line.m, Line.w, C, step.m>>)
           + Soft("Ordered", Line.w > lastw, <<Line.m, Line.w, lastw>>)
-  /\ UNCHANGED <<scn, hooks, pred, reqi, tx, acq, step, open, cancelled, cmds, laterStart, lateErr, sawAfter, inWin, run, runView, ended, endS, endC>>
+          \* C09: after a critical failure at before_/leave_ no later hook of that transition is started
+          + Soft("CancelBefore", ~cancelled, <<Line.m, Line.w, C>>)
+  /\ UNCHANGED <<scn, hooks, pred, reqi, tx, acq, step, failedH, open, cancelled, cmds, laterStart, lateErr, sawAfter, inWin, run, runView, ended, endS, endC>>
 
 \* handleHooks has awaited the calls due at (moment, weight)   [hook point env.hooks.awaited]
 THAwaited ==
   /\ Line.ev = "HAwaited"
   /\ LET C == {Line.calls[i] : i \in 1..Len(Line.calls)} \cap HookIds IN
      /\ pendA' = pendA \ C
+     /\ failedH' = failedH \ C
+     /\ cancelled' = (cancelled \/ (step.k \in {"before", "leave"} /\ \E c \in C : HK(c).crit /\ HK(c).fails))
      /\ nviol' = nviol
           \* collected at the declared await point, and only calls that were started and not collected before
           + Soft("Barrier", \A c \in C : HK(c).am = Line.m /\ HK(c).aw = Line.w, <<Line.m, Line.w, C>>)
           + Soft("OnceOrCancelled", C \subseteq pendA, <<C, pendA>>)
-  /\ UNCHANGED <<scn, hooks, pred, reqi, tx, acq, step, lastw, open, cancelled, cmds, laterStart, lateErr, sawAfter, inWin, winStarted, outStarted, run, runView, ended, endS, endC>>
+          \* C08: collecting a call means taking its result: every awaited call that has failed counts as an error here
+          + Soft("OnceOrCancelled", Line.errors >= Cardinality(C \cap failedH), <<"result dropped", C \cap failedH, Line.errors>>)
+          \* C09 (and C08: the call's result is collected, not dropped): the failure of a critical call that was
+          \* started and has failed is reported where the call is awaited
+          + Soft("CriticalFailureReported", (\E c \in C \cap failedH : HK(c).crit) => Line.errors > 0, <<Line.m, C \cap failedH, Line.errors>>)
+  /\ UNCHANGED <<scn, hooks, pred, reqi, tx, acq, step, lastw, open, cmds, laterStart, lateErr, sawAfter, inWin, winStarted, outStarted, run, runView, ended, endS, endC>>
 
 THE ==
   /\ Line.ev = "HE"
   /\ open' = open \ {Line.hook}
+  /\ failedH' = IF Line.ok THEN failedH ELSE failedH \cup ({Line.hook} \cap pendA)   \* failed and not yet collected
   /\ UNCHANGED <<scn, hooks, pred, reqi, tx, acq, step, lastw, pendA, cancelled, cmds, laterStart, lateErr, sawAfter, inWin, winStarted, outStarted, run, runView, ended, endS, endC, nviol>>
 
 TCmd ==
   /\ Line.ev = "Cmd"
   /\ cmds' = IF Line.tx = tx THEN cmds + 1 ELSE cmds
-  /\ UNCHANGED <<scn, hooks, pred, reqi, tx, acq, step, lastw, pendA, open, cancelled, laterStart, lateErr, sawAfter, inWin, winStarted, outStarted, run, runView, ended, endS, endC, nviol>>
+  /\ UNCHANGED <<scn, hooks, pred, reqi, tx, acq, step, lastw, pendA, failedH, open, cancelled, laterStart, lateErr, sawAfter, inWin, winStarted, outStarted, run, runView, ended, endS, endC, nviol>>
 
 \* published run events: SOSOR (START STARTED) opens a run; the end-of-run pair must occur exactly once per run
 TRun ==
@@ -174,7 +188,7 @@ TRun ==
              \* (a START cancelled before the environment was RUNNING is not a run whose end must be recorded)
              + Soft("EndExactlyOnce", isStart => (run = 0 \/ ended \/ (endS = 1 /\ endC = 1)), <<run, endS, endC>>)
              + Soft("EndExactlyOnce", ((isEndS \/ isEndC \/ isTd) /\ Line.rn # 0) => Line.rn = run, <<Line.tx, Line.rn, run>>)
-  /\ UNCHANGED <<scn, hooks, pred, reqi, tx, acq, step, lastw, pendA, open, cancelled, cmds, laterStart, lateErr, sawAfter>>
+  /\ UNCHANGED <<scn, hooks, pred, reqi, tx, acq, step, lastw, pendA, failedH, open, cancelled, cmds, laterStart, lateErr, sawAfter>>
 
 \* a ControlEnvironment reply: compared with the model's prediction; the run is over after a successful STOP,
 \* a failed START or any transition that ended in ERROR
@@ -193,17 +207,17 @@ TReply ==
              \* C10: the run number is gone after a successful STOP and reported while RUNNING
              + Soft("Gone", over => Line.rn = 0, <<Line.op, Line.st, Line.rn>>)
              + Soft("SetBetween", (Line.code = "OK" /\ Line.st = "RUNNING") => Line.rn = run, <<Line.op, Line.rn, run>>)
-  /\ UNCHANGED <<scn, hooks, pred, tx, acq, step, lastw, pendA, open, cancelled, cmds, laterStart, lateErr, sawAfter, inWin, winStarted, outStarted, run, runView, endS, endC>>
+  /\ UNCHANGED <<scn, hooks, pred, tx, acq, step, lastw, pendA, failedH, open, cancelled, cmds, laterStart, lateErr, sawAfter, inWin, winStarted, outStarted, run, runView, endS, endC>>
 
 \* end of a scenario: every run that was started has been ended exactly once
 TEnd ==
   /\ Line.ev = "End"
   /\ nviol' = nviol + Soft("EndExactlyOnce", run = 0 \/ ended \/ (endS = 1 /\ endC = 1), <<run, endS, endC>>)
-  /\ UNCHANGED <<scn, hooks, pred, reqi, tx, acq, step, lastw, pendA, open, cancelled, cmds, laterStart, lateErr, sawAfter, inWin, winStarted, outStarted, run, runView, ended, endS, endC>>
+  /\ UNCHANGED <<scn, hooks, pred, reqi, tx, acq, step, lastw, pendA, failedH, open, cancelled, cmds, laterStart, lateErr, sawAfter, inWin, winStarted, outStarted, run, runView, ended, endS, endC>>
 
 TOther ==
   /\ Line.ev \notin {"Reset", "Acq", "Rel", "Step", "HS", "HStart", "HAwaited", "HE", "Cmd", "Run", "Reply", "End"}
-  /\ UNCHANGED <<scn, hooks, pred, reqi, tx, acq, step, lastw, pendA, open, cancelled, cmds, laterStart, lateErr, sawAfter, inWin, winStarted, outStarted, run, runView, ended, endS, endC, nviol>>
+  /\ UNCHANGED <<scn, hooks, pred, reqi, tx, acq, step, lastw, pendA, failedH, open, cancelled, cmds, laterStart, lateErr, sawAfter, inWin, winStarted, outStarted, run, runView, ended, endS, endC, nviol>>
 
 TraceNext ==
   /\ l <= Len(Trace)
